@@ -1179,6 +1179,106 @@ def oracle_assumed_rank(ctx):
         common.rmtree(d)
 
 
+CB_SIGS = [("int", ["int", "int"]), ("bool", ["double"]), ("void", ["int"]), ("double", ["double", "int"]), ("int", ["int"])]
+F_OF_C = {"int": "integer(c_int)", "double": "real(c_double)", "bool": "logical(c_bool)", "long": "integer(c_long)"}
+
+
+def callback_programs(thorough):
+    """Callback (function pointer) arguments: the same method and argument name in two or three classes, in
+    overloads and in free functions, with equal and with different callback signatures.  Each entry:
+    (class or None, function name, callback argument name, signature index, extra int parameters)."""
+    shapes = [
+        [("Sorter", "setCompare", "cmp", 0, 0), ("Filter", "setCompare", "cmp", 1, 0)],
+        [("Sorter", "setCompare", "cmp", 0, 0), ("Filter", "setCompare", "cmp", 0, 0), ("Mapper", "setCompare", "cmp", 2, 0)],
+        [(None, "apply", "fn", 4, 0), (None, "apply", "fn", 1, 1)],
+        [(None, "apply", "fn", 4, 0), (None, "apply", "fn", 4, 1), ("Sorter", "apply", "fn", 3, 0)],
+        [("Sorter", "visit", "cb", 2, 0), ("Sorter", "visit", "cb", 3, 1), ("Filter", "visit", "cb", 3, 0), (None, "visit", "cb", 0, 0)],
+        [("Sorter", "setCompare", "cmp", 0, 0), ("Sorter", "setOrder", "cmp", 1, 0), ("Filter", "setCompare", "other", 1, 0)],
+    ]
+    return shapes if thorough else shapes[:5]
+
+
+def callback_yaml(shape):
+    decls, classes = [], {}
+    for cls, name, arg, si, extra in shape:
+        ret, ps = CB_SIGS[si]
+        d = {"decl": "void %s(%s (*%s)(%s)%s)" % (name, ret, arg, ", ".join("%s p%d" % (t, i) for i, t in enumerate(ps)),
+                                                   "".join(", int x%d" % i for i in range(extra)))}
+        if cls is None:
+            decls.append(d)
+        else:
+            if cls not in classes:
+                classes[cls] = {"decl": "class " + cls, "declarations": []}
+                decls.append(classes[cls])
+            classes[cls]["declarations"].append(d)
+    return {"library": "cbk", "declarations": decls}
+
+
+def oracle_abstract_interfaces(ctx, thorough):
+    """Fortran abstract interfaces made for callback arguments: two different callback signatures never share
+    one abstract interface, and every `procedure(<name>)` dummy refers to an abstract interface whose arguments
+    and result agree with the callback of ITS declaration (repaired in /repo b2da8bc)."""
+    import yaml
+    from tools import shroudrun
+    nchecked = 0
+    for shape in callback_programs(thorough):
+        d = common.scratch()
+        try:
+            ytext = yaml.safe_dump(callback_yaml(shape), default_flow_style=False)
+            path = shroudrun.write_yaml(d, "cb.yaml", ytext)
+            cfg, exc, out = shroudrun.run_inproc([path], d)
+            ctx.count(1)
+            replay = {"yaml": ytext, "shape": shape}
+            if exc is not None:
+                ctx.fail("full:abstract-interface:crash", "callback arguments: generation raises %s" % type(exc).__name__, replay)
+                continue
+            text = "".join(data.decode() for fn, data in sorted(shroudrun.read_tree(d).items()) if fn.endswith(".f"))
+            text = re.sub(r"&\n\s*", "", text).lower()
+            # abstract interfaces: name -> (result type or None, [dummy types])
+            absif = {}
+            names = []
+            for blk in re.findall(r"abstract interface\n(.*?)\n\s*end interface", text, re.S):
+                for m in re.finditer(r"^\s*(function|subroutine)\s+(\w+)\(([^)]*)\)\s*bind\(c\)(.*?)^\s*end (?:function|subroutine)", blk, re.S | re.M):
+                    kind, name, dummies, body = m.groups()
+                    names.append(name)
+                    types = {}
+                    for tm in re.finditer(r"^\s*([\w\(\)]+)(?:\s*,\s*\w+)*\s*::\s*(\w+)", body, re.M):
+                        types[tm.group(2)] = tm.group(1)
+                    dl = [x.strip() for x in dummies.split(",") if x.strip()]
+                    absif[name] = (types.get(name) if kind == "function" else None, [types.get(x) for x in dl])
+            dup = sorted({n for n in names if names.count(n) > 1})
+            if dup:
+                ctx.fail("full:abstract-interface:duplicate", "abstract interface defined more than once: %s" % dup, replay)
+            # documented wrapper names of the declarations in order (overload numbers per scope and name)
+            groups = {}
+            for cls, name, arg, si, extra in shape:
+                groups.setdefault((cls, name), []).append(si)
+            seen = {}
+            for cls, name, arg, si, extra in shape:
+                k = seen.get((cls, name), 0)
+                seen[(cls, name)] = k + 1
+                sfx = "_%d" % k if len(groups[(cls, name)]) > 1 else ""
+                wname = "c_" + ((cls.lower() + "_") if cls else "") + doc_un_camel(name).lower() + sfx
+                m = re.search(r"subroutine %s\((.*?)end subroutine %s" % (re.escape(wname), re.escape(wname)), text, re.S)
+                if not m:
+                    ctx.fail("full:abstract-interface:wrapper-missing", "no bind(C) interface %s" % wname, replay)
+                    continue
+                pm = re.search(r"procedure\((\w+)\)\s*::\s*%s\b" % re.escape(arg.lower()), m.group(1))
+                if not pm or pm.group(1) not in absif:
+                    ctx.fail("full:abstract-interface:unknown", "%s: callback %s has no abstract interface" % (wname, arg), replay)
+                    continue
+                ret, ps = CB_SIGS[si]
+                want = (None if ret == "void" else F_OF_C[ret], [F_OF_C[t] for t in ps])
+                nchecked += 1
+                if absif[pm.group(1)] != want:
+                    ctx.fail("full:abstract-interface:signature", "%s declares its callback %s as procedure(%s) = %s, but the callback of this "
+                             "declaration is %s (%s): two callable signatures share one abstract interface"
+                             % (wname, arg, pm.group(1), absif[pm.group(1)], want, "%s (*)(%s)" % (ret, ", ".join(ps))), replay)
+        finally:
+            common.rmtree(d)
+    ctx.note("callback_dummies_checked", nchecked)
+
+
 def gi_correspondence(ctx, drv):
     """Tie: the model's generic tables (driver op `gi`: module-level interfaces and type-bound generics per
     class, members with the preprocessor condition in force after the model's emission functions) vs the
@@ -1446,7 +1546,8 @@ def run(ctx):
         "templated entry points of different suffixes, scope + underscore forms of different names not prefixes of one another",
         "module_entities_distinct_partial takes as given that no generic interface name equals a specific and that derived-type / "
         "enumeration names are apart from both (those names are not modelled)",
-        "return_this, CFI, assumed-rank, fortran_generic_c variants and format overrides of single names are not modelled",
+        "return_this, CFI, assumed-rank, fortran_generic_c variants, format overrides of single names and the names of Fortran abstract "
+        "interfaces (callback arguments) are not modelled; the last two are covered by implementation-only oracles",
     ]
     from shroud import ast as sast, util as sutil
 
@@ -1626,6 +1727,7 @@ def run(ctx):
         tmpl_container([], "vec", insts2, i, [mkfn("fill", nparams=3, ndefaults=2, usesT=True), mkfn("push", usesT=True)])
         for i in range(2)]), "full")
     oracle_assumed_rank(ctx)
+    oracle_abstract_interfaces(ctx, thorough)
     ctx.note("full_generations", len(pick) + len(extra) + 3)
     if drv.available() and ok:
         gi_correspondence(ctx, drv)
